@@ -4,6 +4,7 @@ import (
 	"strconv"
 	"strings"
 	"testing/synctest"
+	"time"
 
 	"istio.io/istio/pkg/kube/krt"
 )
@@ -11,6 +12,7 @@ import (
 // joinRun: krt.JoinCollection over 2-3 static collections of Obj, a namespace index on the join,
 // subscribers on the join.  Lean: JoinSpec.lean / JoinDriver.lean.
 type joinRun struct {
+	merge     bool // stream joinm: krt.JoinWithMergeCollection
 	derived   bool // jd: the joined collections are derived copies of the static ones
 	unchecked bool // ju: krt.WithJoinUnchecked (the generator keeps the keys disjoint)
 	flagged   bool
@@ -31,7 +33,7 @@ func newJoinRun(head []string) runner {
 	if err != nil || n < 0 {
 		n = 2
 	}
-	r := &joinRun{flagged: contains(head[4:], "jr"), derived: contains(head[4:], "jd"), unchecked: contains(head[4:], "ju"), stop: make(chan struct{}), touched: map[string][]int{},
+	r := &joinRun{merge: strings.HasPrefix(head[2], "joinm"), flagged: contains(head[4:], "jr"), derived: contains(head[4:], "jd"), unchecked: contains(head[4:], "ju"), stop: make(chan struct{}), touched: map[string][]int{},
 		subs: map[string]*subscriber{}}
 	for i := 0; i < n; i++ {
 		r.cols = append(r.cols, krt.NewStaticCollection[Obj](nil, nil, krt.WithStop(r.stop), krt.WithName("c"+strconv.Itoa(i))))
@@ -69,8 +71,20 @@ func (r *joinRun) multi() []string {
 	return ks
 }
 
+// mergeObjs is the merge function of the joinm stream (Lean: mergeOne).
+func mergeObjs(ts []Obj) *Obj {
+	if len(ts) == 0 || ts[0].Val == "v3" {
+		return nil
+	}
+	vals := make([]string, len(ts))
+	for i, t := range ts {
+		vals[i] = t.Val
+	}
+	return &Obj{NS: ts[0].NS, Name: ts[0].Name, Val: strings.Join(vals, "+")}
+}
+
 func (r *joinRun) touch(k string, i int) {
-	if !r.started {
+	if !r.started || r.merge {
 		return
 	}
 	l := r.touched[k]
@@ -113,7 +127,19 @@ func (r *joinRun) start() {
 	if r.unchecked {
 		opts = append(opts, krt.WithJoinUnchecked())
 	}
-	r.j = krt.JoinCollection(cs, opts...)
+	if r.merge {
+		r.j = krt.JoinWithMergeCollection(cs, mergeObjs, opts...)
+	} else {
+		r.j = krt.JoinCollection(cs, opts...)
+	}
+	if r.merge {
+		// mergejoin waits for its registrations with kube.WaitForCacheSync, a sleep-and-poll loop: inside the
+		// bubble time only advances while the root goroutine sleeps too
+		for i := 0; i < 4; i++ {
+			time.Sleep(200 * time.Millisecond)
+			synctest.Wait()
+		}
+	}
 	r.idx = krt.NewIndex[string, Obj](r.j, "ns", func(o Obj) []string { return []string{o.NS} })
 	r.startState()
 }
